@@ -17,6 +17,7 @@ package gzip
 import (
 	"compress/gzip"
 	"net/http"
+	"strings"
 	"strconv"
 )
 
@@ -45,12 +46,18 @@ type SkipCompressedFilter struct{}
 // ShouldCompress returns true if served file is not already compressed
 // encodings via https://developer.mozilla.org/en-US/docs/Web/HTTP/Headers/Content-Encoding
 func (n SkipCompressedFilter) ShouldCompress(w http.ResponseWriter) bool {
-	switch w.Header().Get("Content-Encoding") {
-	case "gzip", "compress", "deflate", "br", "zstd":
-		return false
-	default:
-		return true
+	// whatever coding a response already has, in whatever spelling
+	// (codings are case-insensitive, the field is a list, it may be
+	// repeated), it is left alone
+	for _, line := range w.Header()["Content-Encoding"] {
+		for _, coding := range strings.Split(line, ",") {
+			coding = strings.ToLower(strings.TrimSpace(coding))
+			if coding != "" && coding != "identity" {
+				return false
+			}
+		}
 	}
+	return true
 }
 
 // ResponseFilterWriter validates ResponseFilters. It writes
